@@ -2680,6 +2680,45 @@ example : netNLinks false 4 (fun a b => (a + b) % 2 == 1 || a + b == 2 && a != b
       + numberCrossLinks (fun a b => (a + b) % 2 == 1 || a + b == 2 && a != b) [2, 0] [3, 1] := by
   decide
 
+/-- the finite path lengths / the unreachable pairs of the whole node set split into the four
+blocks of a partition into two lists -/
+theorem path_blocks_append (D : Dist) (L1 L2 : List Nat) :
+    sumFinite (block D (L1 ++ L2) (L1 ++ L2))
+        = sumFinite (block D L1 L1) + sumFinite (block D L1 L2)
+          + sumFinite (block D L2 L1) + sumFinite (block D L2 L2)
+    ∧ countNone (block D (L1 ++ L2) (L1 ++ L2))
+        = countNone (block D L1 L1) + countNone (block D L1 L2)
+          + countNone (block D L2 L1) + countNone (block D L2 L2) := by
+  constructor
+  · simp only [sumFinite_eq, List.map_append, List.sum_append, List.sum_map_add]
+    ring
+  · simp only [countNone_eq, List.map_append, List.sum_append, List.sum_map_add]
+    omega
+
+/-- **`Network.average_path_length(link_attribute)` is the pooled mean of the internal and cross
+path lengths** of any bipartition `(L1, L2)` of the node set (lists in any order, any distance
+matrix, directed or not): the sum of the finite entries of the four blocks divided by
+`N(N−1)` minus their numbers of unreachable pairs — the numerators and the `inf` counts of
+`internal_average_path_length(L1)`, `(L2)`, `cross_average_path_length(L1, L2)`, `(L2, L1)`;
+`nan` iff no ordered pair of different nodes is connected. -/
+theorem apl_decomposition (D : Dist) (n : Nat) (L1 L2 : List Nat)
+    (h : (L1 ++ L2).Perm (List.range n)) :
+    Net.avgPathLength n D
+      = (let S := sumFinite (block D L1 L1) + sumFinite (block D L1 L2)
+            + sumFinite (block D L2 L1) + sumFinite (block D L2 L2)
+         let U := countNone (block D L1 L1) + countNone (block D L1 L2)
+            + countNone (block D L2 L1) + countNone (block D L2 L2)
+         let norm : Int := ((n : Int) - 1) * n - (U : Nat)
+         if norm = 0 then none else some (S / (norm : Rat))) := by
+  rw [← whole_average_path_length D n (L1 ++ L2) h]
+  have hl : (L1 ++ L2).length = n := by simpa using h.length_eq
+  obtain ⟨hs, hc⟩ := path_blocks_append D L1 L2
+  unfold internalAPL generalAPL
+  simp only [if_true, hl, hs, hc]
+
+example : Net.avgPathLength 3 (fun a b => if a = b then some 0 else if a + b = 1 then some 2 else none)
+    = some 2 := by decide +kernel
+
 /-! ### the two layers of a `CoupledClimateNetwork` -/
 
 /-- **the node lists the constructor builds are a bipartition of the node set**
